@@ -283,7 +283,7 @@ def direct_failure(ref, reps):
         if r["outcome"] not in ("ok", "killed", "raised"):
             return ("driver", "driver outcome %s" % r["outcome"])
     killed = [r["killed_before"] for r in reps if r["outcome"] == "killed"]
-    where = "; ".join("%s %s" % (k[0], k[1]) for k in killed) or "after the last operation"
+    where = "; ".join(("%s %s" % (k[0], k[1])) if k[0] != "end" else "the return, after the last operation" for k in killed) or "after the last operation"
     if fin["outcome"] == "raised":
         return ("resume-raises", "resume=True raises %s (%s) after a kill before [%s]; last.pkl on disk: %s"
                 % (fin["error"], fin.get("detail", "")[:80], where, fin["pre"]["last"]))
